@@ -43,12 +43,16 @@ def blocks_of(m):
     return out
 
 
-def render(m, override=None):
-    """XML text of the model; `override` maps block keys to replacement texts."""
+def render(m, override=None, cdata=()):
+    """XML text of the model; `override` maps block keys to replacement texts; the blocks whose keys are in `cdata` are written as
+    CDATA sections instead of escaped text."""
     ov = override or {}
 
     def txt(key, default):
-        return esc(ov.get(key, default))
+        t = ov.get(key, default)
+        if key in cdata and "]]>" not in t:
+            return "<![CDATA[" + t + "]]>"
+        return esc(t)
 
     o = ['<?xml version="1.0" encoding="utf-8"?>\n<nta>\n']
     o.append("<declaration>%s</declaration>\n" % txt(("decl",), m["decl"]))
